@@ -7,5 +7,9 @@ type syntaxQueryParamLiteral struct {
 func (l *syntaxQueryParamLiteral) compute(
 	_ interface{}, _ []interface{}) []interface{} {
 
-	return l.literal
+	// Comparators and type validators edit the lists they receive in place,
+	// so the literal kept in the parsed tree must never be handed out itself.
+	result := make([]interface{}, len(l.literal))
+	copy(result, l.literal)
+	return result
 }
